@@ -130,12 +130,6 @@ theorem getIeeeCompressed_df (r r' : R) (col col' : List Node) (g : Range)
 
 /-! ### one step of the lock-step loop: the per-copy application -/
 
-/-- the B-side per-copy function of `decodeCompressedLoopB` -/
-def stepFB (T : Tables) (edition : Nat) (p : DDO × BM) (q : List Node × List Node) : DDO × BM × Node × Bool :=
-  match q.2 with
-  | n :: _ => applyTables2nodeB T edition (q.1.reverse ++ q.2) p.1 p.2 n
-  | [] => (p.1, p.2, ({ desc := 0 } : Node), false)
-
 theorem applied_quiet (T : Tables) (edition : Nat) :
     ∀ (todos dones : List (List Node)) (ddos : List DDO) (bms : List BM),
     bms.length = ddos.length → dones.length = todos.length → ddos.length = todos.length →
